@@ -210,7 +210,8 @@ _R12 = {
            '(layout read off the writer). RC-NORM-TWIN: range encoder (2 sites), range decoder and the x86-64 assembly renormalise under the '
            'same predicate of `range` (compared on all critical points) and shift by the same amount. EMIT-LOOP-FLAGS: a reset flag that '
            'chooses a chunk header inside an emitter loop is cleared inside that loop. DIST-BELOW-FULL, PENDING-PAIR-DEC (see C06, C07).',
-    'C03': ' SIZE-FIELD-TWIN, EMIT-LOOP-FLAGS (see C01). UNIT-RECORD (see C02).',
+    'C03': ' SIZE-FIELD-TWIN, EMIT-LOOP-FLAGS (see C01). UNIT-RECORD, VARINT-TWIN (see C02). ALONE-DICT-FORM: the dictionary size LZMAWriter puts '
+           'into the .lzma header is not the raw option but a size the reference decoder accepts (1 known finding: it is the raw option today).',
     'C02': ' UNIT-RECORD: per-unit counters of XZWriter / LZIPWriter are advanced inside the loop that can close the unit, and a size the '
            'closer puts into the unit record comes from a counter that is reset per unit. VARINT-TWIN: the slice-based and the reader-based '
            'multibyte-integer decoders reject under the same data-dependent conditions.',
